@@ -25,6 +25,9 @@ THEOREM_OF = {
     "builder": "C18_build_round / C18_round_nothing_lost / C18_canceled_before_build (buildWithLimit round: fetched entries only, priorities, consecutive ids, cancelled skipped, nothing popped is lost, nothing left behind with an unbounded limit)",
     "own_error": "C18_collapse_follower_result (an error is the call's own: time-out / cancellation of ITS context)",
     "runloop": "C18_runloop_fifo_once (every appended callback runs exactly once, in order)",
+    "priority": "C18_gate_priority (the priority an entry is queued with is the one the wrapper model predicts)",
+    "gate": "C18_gate_wrapped_call (request / response gate of the resource-control wrapper)",
+    "interceptor_once": "RPC interceptor of the call's context runs once per synchronous call (oracle only)",
     "harness": "harness",
 }
 
@@ -137,7 +140,7 @@ def main(tier, replay):
     classes = {k[6:]: n for k, n in stats.items() if k.startswith("class:")}
     cov.update(evaluations=stats.get("calls", 0) + stats.get("scenarios", 0),
                distinct_nontrivial=stats.get("distinct", 0),
-               rule="seeded scenarios of direct differential of util/async.RunLoop on random re-entrant / concurrent Append scripts + directed scenarios from corpus/C18 + 21 classes (plain / forward / streamfail / cancel / close / staleepoch / multiconn / rebreak / sendpanic / staleasync / builder / recvpanic / failpanic / twopools / nonbatch / asyncclose / limitbatch / limitstarve / runloop (shared RunLoop, busy callbacks) / idle (idle timer fired through an export hook, recycling) / collapse (request pairs equal or differing in exactly one component — TxnInfos, Keys, region — overlapping in time through the sync and async entry; ResolveLock through NewReqCollapse(NewInterceptedClient(..)), leader cancelled); MaxConcurrencyRequestLimit in {default,1,2,3,..} incl. whole batches of mixed priorities / cancelled entries built at once through the repo failpoint mockBatchClientSendDelay, second Take rounds): 1..72 concurrent callers, "
+               rule="seeded scenarios of direct differential of util/async.RunLoop on random re-entrant / concurrent Append scripts + directed scenarios from corpus/C18 + 22 classes (plain / forward / streamfail / cancel / close / staleepoch / multiconn / rebreak / sendpanic / staleasync / builder / recvpanic / failpanic / twopools / nonbatch / asyncclose / limitbatch / limitstarve / runloop (shared RunLoop, busy callbacks) / idle (idle timer fired through an export hook, recycling) / rcglue (NewInterceptedClient with a scripted resource-group controller: group priorities vs override, failing OnRequestWait / OnResponseWait, background group, RPC interceptors on the context) / collapse (request pairs equal or differing in exactly one component — TxnInfos, Keys, region — overlapping in time through the sync and async entry; ResolveLock through NewReqCollapse(NewInterceptedClient(..)), leader cancelled); MaxConcurrencyRequestLimit in {default,1,2,3,..} incl. whole batches of mixed priorities / cancelled entries built at once through the repo failpoint mockBatchClientSendDelay, second Take rounds): 1..72 concurrent callers, "
                     "4 request types, priorities 0..16, 1..5 forwarded hosts, 1..4 connections, concurrency limit, batch policies, server side delay / reorder / "
                     "duplicate / unknown-id / never-answered responses, stream kills, server restarts, injected Send/Recv/stream-creation failures, cancellation, "
                     "time-outs, client / address close during traffic, sync calls with 30 s time-outs and SendRequestAsync calls without deadline (must complete in the drain phase), "
